@@ -21,9 +21,10 @@ import (
 )
 
 type Sym struct {
-	Kind byte // 'c' cap, 'l' len, 'v' value of an integer location
+	Kind byte // 'c' cap, 'l' len, 'v' value of an integer location / SSA value
 	Key  string
 	K    int64
+	T    bool // the bounding quantity is itself peer-derived
 }
 
 func (s Sym) String() string {
@@ -80,8 +81,14 @@ func normUB(u []Sym) []Sym {
 	m := map[[2]string]Sym{}
 	for _, s := range u {
 		k := [2]string{string(s.Kind), s.Key}
-		if o, ok := m[k]; !ok || s.K < o.K {
+		if o, ok := m[k]; !ok {
 			m[k] = s
+		} else {
+			if s.K < o.K {
+				o.K = s.K
+			}
+			o.T = o.T || s.T
+			m[k] = o
 		}
 	}
 	out := make([]Sym, 0, len(m))
@@ -110,7 +117,7 @@ func joinAV(a, b AV) AV {
 				if y.K > k {
 					k = y.K
 				}
-				r.UB = append(r.UB, Sym{x.Kind, x.Key, k})
+				r.UB = append(r.UB, Sym{x.Kind, x.Key, k, x.T || y.T})
 			}
 		}
 	}
@@ -434,12 +441,26 @@ func (t *TLG) analyze(fn *ssa.Function) {
 				nw = st
 			} else {
 				nw = a.joinState(old, st)
-				a.visit[succ]++
-				if a.visit[succ] > 4 {
-					nw = widen(old, nw)
+				// widen only along back edges (loop heads): elsewhere the chains are
+				// finite once the heads are stable, and widening there would undo
+				// the refinement of loop guards
+				if succ.Dominates(b) {
+					a.visit[succ]++
+					if a.visit[succ] > 4 {
+						nw = widen(old, nw)
+					}
 				}
 				if stateEq(old, nw) {
 					continue
+				}
+			}
+			if os.Getenv("GMCHECK_TLG_TRACE") == core.FnName(fn) {
+				for k, v := range nw {
+					if strings.HasPrefix(k, "V:") {
+						if _, isPhi := a.vals[k[2:]].(*ssa.Phi); isPhi {
+							fmt.Printf("  edge %d->%d %s = %s\n", b.Index, succ.Index, k, v)
+						}
+					}
 				}
 			}
 			a.in[succ] = nw
@@ -878,7 +899,7 @@ func (a *fnAn) binop(x *ssa.BinOp, st tstate) AV {
 		exact := f(l.all(), r.P)
 		if exact != nil && exact.subset(tr) {
 			for _, s := range l.UB {
-				res.UB = append(res.UB, Sym{s.Kind, s.Key, s.K + k})
+				res.UB = append(res.UB, Sym{s.Kind, s.Key, s.K + k, s.T})
 			}
 		}
 	}
@@ -1011,23 +1032,30 @@ func (a *fnAn) symOf(v ssa.Value) (Sym, bool) {
 		if b, ok := cc.Value.(*ssa.Builtin); ok && len(cc.Args) == 1 {
 			switch b.Name() {
 			case "len":
-				return Sym{'l', a.sliceKey(cc.Args[0]), 0}, true
+				return Sym{'l', a.sliceKey(cc.Args[0]), 0, false}, true
 			case "cap":
-				return Sym{'c', a.sliceKey(cc.Args[0]), 0}, true
+				return Sym{'c', a.sliceKey(cc.Args[0]), 0, false}, true
 			}
 		}
 		switch calleeName(cc) {
 		case "reflect.(Value).Len":
-			return Sym{'l', "v:" + cc.Args[0].Name(), 0}, true
+			return Sym{'l', "v:" + cc.Args[0].Name(), 0, false}, true
 		case "reflect.(Value).Cap":
-			return Sym{'c', "v:" + cc.Args[0].Name(), 0}, true
+			return Sym{'c', "v:" + cc.Args[0].Name(), 0, false}, true
+		}
+		if isIntegerType(x.Type(), a.sizes) {
+			return Sym{'v', "v:" + x.Name(), 0, false}, true
+		}
+	case *ssa.Extract, *ssa.Parameter, *ssa.Phi:
+		if isIntegerType(v.Type(), a.sizes) {
+			return Sym{'v', "v:" + v.Name(), 0, false}, true
 		}
 	case *ssa.UnOp:
 		if x.Op == token.MUL && isIntegerType(x.Type(), a.sizes) {
 			k, _, _ := a.locKey(x.X)
 			// only valid while the location is not overwritten: checked through
 			// killSyms on every store/kill of the key
-			return Sym{'v', k, 0}, true
+			return Sym{'v', k, 0, false}, true
 		}
 	case *ssa.Convert:
 		return a.symConv(x.X, x.Type())
@@ -1044,7 +1072,7 @@ func (a *fnAn) symOf(v ssa.Value) (Sym, bool) {
 						if x.Op == token.SUB {
 							k = -k
 						}
-						return Sym{s.Kind, s.Key, s.K + k}, true
+						return Sym{s.Kind, s.Key, s.K + k, false}, true
 					}
 				}
 			}
@@ -1200,10 +1228,10 @@ func (a *fnAn) constrain(v AV, op token.Token, other AV, otherVal ssa.Value) (AV
 		}
 		ub := append([]Sym(nil), r.UB...)
 		if s, ok := a.symOf(otherVal); ok {
-			ub = append(ub, Sym{s.Kind, s.Key, s.K + d})
+			ub = append(ub, Sym{s.Kind, s.Key, s.K + d, other.T != nil})
 		}
 		for _, s := range other.UB {
-			ub = append(ub, Sym{s.Kind, s.Key, s.K + d})
+			ub = append(ub, Sym{s.Kind, s.Key, s.K + d, s.T})
 		}
 		r.UB = normUB(ub)
 	}
@@ -1248,6 +1276,19 @@ func (a *fnAn) assign(st tstate, v ssa.Value, av AV, b *ssa.BasicBlock) {
 	case *ssa.UnOp:
 		if x.Op == token.MUL {
 			if key, ok := a.loadStillValid(x.Name(), b); ok {
+				// the location was not written since the load: every fact known about
+				// it so far still holds together with the new one
+				if old, have := st["L:"+key]; have {
+					m := av
+					if t := meet(old.T, av.T); t != nil || (old.T == nil && av.T == nil) {
+						m.T = t
+					}
+					if pp := meet(old.P, av.P); pp != nil || (old.P == nil && av.P == nil) {
+						m.P = pp
+					}
+					m.UB = normUB(append(append([]Sym(nil), old.UB...), av.UB...))
+					av = m
+				}
 				st["L:"+key] = av
 			}
 		}
@@ -1332,9 +1373,15 @@ func (a *fnAn) instr(in ssa.Instruction, st tstate, collect bool) {
 				}
 				if isIntegerType(ms.Len.Type(), a.sizes) {
 					lav := a.eval(ms.Len, st)
-					lav.UB = normUB(append(append([]Sym(nil), lav.UB...), Sym{'c', key, 0}, Sym{'l', key, 0}))
+					lav.UB = normUB(append(append([]Sym(nil), lav.UB...), Sym{'c', key, 0, false}, Sym{'l', key, 0, false}))
 					a.assign(st, ms.Len, lav, x.Block())
 				}
+			}
+			// loc = loc[:h] (re-slice of the same storage): afterwards h <= len(loc)
+			if sl, ok := base.(*ssa.Slice); ok && !elem && sl.High != nil && sl.Low == nil && a.sliceKey(sl.X) == key && isIntegerType(sl.High.Type(), a.sizes) {
+				hav := a.eval(sl.High, st)
+				hav.UB = normUB(append(append([]Sym(nil), hav.UB...), Sym{'l', key, 0, false}))
+				a.assign(st, sl.High, hav, x.Block())
 			}
 		}
 	case *ssa.MakeSlice:
@@ -1520,13 +1567,22 @@ func (a *fnAn) call(in ssa.Instruction, cc *ssa.CallCommon, st tstate, collect b
 			rk := "v:" + cc.Args[0].Name()
 			killSyms(st, rk)
 			if mk, ok := cc.Args[1].(*ssa.Call); ok && name == "reflect.(Value).Set" && calleeName(mk.Common()) == "reflect.MakeSlice" && len(mk.Common().Args) == 3 {
-				for _, op := range mk.Common().Args[1:] {
+				for i, op := range mk.Common().Args[1:] {
 					if isIntegerType(op.Type(), a.sizes) {
 						av := a.eval(op, st)
-						av.UB = normUB(append(append([]Sym(nil), av.UB...), Sym{'c', rk, 0}))
+						add := []Sym{{'c', rk, 0, false}}
+						if i == 0 {
+							add = append(add, Sym{'l', rk, 0, false})
+						}
+						av.UB = normUB(append(append([]Sym(nil), av.UB...), add...))
 						a.assign(st, op, av, in.Block())
 					}
 				}
+			}
+			if name == "reflect.(Value).SetLen" && isIntegerType(cc.Args[1].Type(), a.sizes) {
+				av := a.eval(cc.Args[1], st)
+				av.UB = normUB(append(append([]Sym(nil), av.UB...), Sym{'l', rk, 0, false}))
+				a.assign(st, cc.Args[1], av, in.Block())
 			}
 		}
 	}
@@ -1879,6 +1935,21 @@ func (a *fnAn) sinkIndex(in ssa.Instruction, x, idx ssa.Value, st tstate) {
 	if av.T == nil {
 		if c, ok := av.P.isConst(); ok && c.Sign() >= 0 {
 			a.constIntoPeerSized(in, x, c, true, st)
+			return
+		}
+		// a loop variable (or other program value) whose only upper bound is a
+		// peer-derived count: the container must be at least that long
+		if drv, has := peerBound(av); has {
+			ok := nonNeg(av.P)
+			why := ""
+			if ok {
+				ok, why = a.boundedBy(av, idx, x, st, true, false)
+			}
+			got := "index " + av.String() + " is bounded by the peer-derived " + drv.String()
+			if why != "" {
+				got += "; " + why
+			}
+			a.addSink(in, "index(by-count)", av, ok, "an index bounded only by a peer-derived count stays below the length of the container it indexes", got)
 		}
 		return
 	}
@@ -1892,6 +1963,16 @@ func (a *fnAn) sinkIndex(in ssa.Instruction, x, idx ssa.Value, st tstate) {
 		got += "; " + why
 	}
 	a.addSink(in, "index", av, ok, "0 <= peer-derived index < len of the operand on every path", got)
+}
+
+// peerBound: the value has an upper bound by a peer-derived quantity.
+func peerBound(av AV) (Sym, bool) {
+	for _, s := range av.UB {
+		if s.T {
+			return s, true
+		}
+	}
+	return Sym{}, false
 }
 
 func (a *fnAn) callSinks(in ssa.Instruction, cc *ssa.CallCommon, name string, st tstate) {
@@ -1930,17 +2011,21 @@ func (a *fnAn) callSinks(in ssa.Instruction, cc *ssa.CallCommon, name string, st
 	case "reflect.(Value).Index":
 		if v := arg(1); v != nil {
 			av := a.eval(v, st)
-			if av.T != nil {
-				ok := nonNeg(av.T)
-				if ok {
-					ok = false
-					for _, u := range av.UB {
-						if u.Key == "v:"+arg(0).Name() && u.Kind == 'l' && u.K <= -1 {
-							ok = true
-						}
+			rk := "v:" + arg(0).Name()
+			bounded := func() bool {
+				for _, u := range av.UB {
+					if u.Key == rk && u.Kind == 'l' && u.K <= -1 {
+						return true
 					}
 				}
+				return false
+			}
+			if av.T != nil {
+				ok := nonNeg(av.T) && bounded()
 				a.addSink(in, "reflindex", av, ok, "0 <= peer-derived index < Len() of the reflect value", "index "+av.String())
+			} else if drv, has := peerBound(av); has && a.reflHasFacts(rk, st) {
+				ok := nonNeg(av.P) && bounded()
+				a.addSink(in, "reflindex(by-count)", av, ok, "an index bounded only by a peer-derived count stays below Len() of the reflect value it indexes", "index "+av.String()+" is bounded by the peer-derived "+drv.String())
 			}
 		}
 	case "reflect.(Value).Slice", "reflect.(Value).SetLen":
@@ -1965,6 +2050,19 @@ func (a *fnAn) callSinks(in ssa.Instruction, cc *ssa.CallCommon, name string, st
 			a.addSink(in, fmt.Sprintf("reflslice(arg%d)", i), av, ok, "0 <= peer-derived bound <= Cap() of the reflect value", "bound "+av.String())
 		}
 	}
+}
+
+// reflHasFacts: something is known about the length of the reflect value rk in
+// this state (it was resized here); otherwise the by-count rule cannot decide.
+func (a *fnAn) reflHasFacts(rk string, st tstate) bool {
+	for _, v := range st {
+		for _, u := range v.UB {
+			if u.Key == rk && (u.Kind == 'l' || u.Kind == 'c') {
+				return true
+			}
+		}
+	}
+	return false
 }
 
 // loopSink: a loop whose bound is peer-derived must have a non-negative bound
